@@ -72,6 +72,7 @@ type Node struct {
 	// LastAppHash is the IAVL commit hash of the last committed block.
 	LastAppHash []byte
 	Restarts    int
+	Reimports   int
 }
 
 // Logger is the context logger of simulated blocks (a no-op unless VERIF_DEBUG_LOG=1).
